@@ -6,18 +6,24 @@ from vf.semirings import Poly
 FRAC = [Fraction(1, 2), Fraction(1, 3), Fraction(1, 5), Fraction(2, 7), Fraction(1, 4), Fraction(3, 10), Fraction(2, 5), Fraction(1, 6)]
 
 
-def build(cls, R, ops, weights, names=None):
-    """ops: canonical tuple of ('I',q) / ('F',q) / ('A',i,label,j); weights[k] for op k."""
+def build(cls, R, ops, weights, names=None, use_set=False):
+    """ops: canonical tuple of ('I',q) / ('F',q) / ('A',i,label,j); weights[k] for op k.
+    use_set=True builds through the public set_I / set_F / set_arc (only meaningful when no
+    operation occurs twice, since set_* overwrites)."""
     f = (lambda q: names[q]) if names is not None else (lambda q: q)
     m = cls(R)
     for op, w in zip(ops, weights):
         if op[0] == "I":
-            m.add_I(f(op[1]), w)
+            (m.set_I if use_set else m.add_I)(f(op[1]), w)
         elif op[0] == "F":
-            m.add_F(f(op[1]), w)
+            (m.set_F if use_set else m.add_F)(f(op[1]), w)
         else:
-            m.add_arc(f(op[1]), op[2], f(op[3]), w)
+            (m.set_arc if use_set else m.add_arc)(f(op[1]), op[2], f(op[3]), w)
     return m
+
+
+def no_repeats(ops):
+    return len(set(ops)) == len(ops)
 
 
 def data(ops, weights, names=None):
